@@ -152,7 +152,10 @@ def P_all_conds(n):
     return set(P_.all_conds(n))
 
 def _ev3(x, env, memo):
-    """three-valued evaluation: a number / bool, or None when the value depends on something not fixed by env"""
+    """three-valued evaluation: a number / bool, or None when the value depends on something not fixed by env.
+    env['ieee'] (set by callers that fold a value graph at concrete inputs): integer operations are evaluated in their width and
+    every float-typed arithmetic result is rounded to binary32 (the double-precision intermediate is wide enough for + - * /
+    to round correctly), so the folding is bit-exact."""
     if x.id in memo: return memo[x.id]
     r = None
     if x.id in env: r = env[x.id]
@@ -160,11 +163,27 @@ def _ev3(x, env, memo):
     elif x is T.FALSE: r = False
     elif x.op == 'const':
         v = T.const_value(x)
-        r = None if isinstance(v, str) else v
+        r = None if isinstance(v, str) else (float(v) if (env.get('ieee') and not isinstance(v, int)) else v)
     else:
         a = [_ev3(y, env, memo) for y in x.args]
         op = x.op
-        if op in ('fpext', 'fptrunc', 'sitofp', 'zext'): r = a[0]
+        def f32(v):
+            import struct, math
+            if v is None or isinstance(v, bool) or x.ty != 'float' or not env.get('ieee'): return v
+            try: return struct.unpack('<f', struct.pack('<f', v))[0]
+            except OverflowError: return math.copysign(math.inf, v)
+        if env.get('ieee') and op in ('and', 'or', 'xor', 'shl', 'lshr', 'add', 'sub', 'mul') and x.ty != 'i1' and str(x.ty).startswith('i') and None not in a and all(isinstance(v, int) and not isinstance(v, bool) for v in a):
+            w = int(x.ty[1:]); m_ = (1 << w) - 1; p, q = a[0] & m_, a[1] & m_
+            r = {'and': p & q, 'or': p | q, 'xor': p ^ q, 'shl': (p << q) & m_ if q < w else None, 'lshr': p >> q if q < w else None, 'add': (p + q) & m_, 'sub': (p - q) & m_, 'mul': (p * q) & m_}[op]
+        elif env.get('ieee') and op in ('uitofp', 'sitofp') and a[0] is not None: r = f32(float(a[0]))
+        elif env.get('ieee') and op in ('fptoui', 'fptosi') and a[0] is not None:
+            w = int(x.ty[1:]); v = int(a[0]) if a[0] == a[0] and abs(a[0]) < 2.0 ** 63 else None
+            r = v if v is not None and (0 <= v < (1 << w) if op == 'fptoui' else -(1 << (w - 1)) <= v < (1 << (w - 1))) else None
+        elif env.get('ieee') and op in ('zext', 'trunc') and a[0] is not None and str(x.ty).startswith('i') and x.ty != 'i1' and isinstance(a[0], int) and not isinstance(a[0], bool): r = a[0] & ((1 << int(x.ty[1:])) - 1)
+        elif env.get('ieee') and op == 'fptrunc' and a[0] is not None: r = f32(a[0])
+        elif env.get('ieee') and op in ('fmul', 'fadd', 'fsub', 'fdiv') and None not in a and (op != 'fdiv' or a[1] != 0):
+            r = f32(a[0] * a[1] if op == 'fmul' else a[0] + a[1] if op == 'fadd' else a[0] - a[1] if op == 'fsub' else a[0] / a[1])
+        elif op in ('fpext', 'fptrunc', 'sitofp', 'zext'): r = a[0]
         elif op == 'fneg': r = None if a[0] is None else -a[0]
         elif op == 'absi' or (op == 'call' and 'fabs' in str(x.attr)): r = None if a[0] is None else abs(a[0])
         elif op in ('fmul', 'fadd', 'fsub') and None not in a:
